@@ -13,7 +13,7 @@ REPLAY_ANY = 40      # schedule-dependent: a failing program must fail again wit
 RULE = ("rtdrv in free-running mode, libovni and driver built with ThreadSanitizer: 2-8 pthreads released by a "
         "barrier, each with its own generated op list (thread_init, require, add_cpu, emits, jumbo emits incl. "
         "buffer-boundary crossings, flushes, marks, attributes, attr_flush, thread_free) and generated spin "
-        "delays; direct and OVNI_TMPDIR mode.  Race trials: N threads call ovni_proc_init (resp. ovni_proc_fini) "
+        "delays, a third of the threads setting the process rank (recorded in the caller's metadata only), a third of the programs with one thread that has finished completely before the others are released together; direct and OVNI_TMPDIR mode.  Race trials: N threads call ovni_proc_init (resp. ovni_proc_fini) "
         "from the barrier; refusals (die) are observed through a SIGABRT handler.  Oracle: (1) no ThreadSanitizer "
         "report with a frame in ovni.c / common.c / parson.c; (2) every thread's stream equals its own emit log "
         "and its stream.json holds exactly its tid, the attributes, requires, CPUs and marks it set; (3) race "
@@ -43,6 +43,10 @@ def thread_ops(draw, t):
         ops.append(["require", draw(st.sampled_from(["nosv", "nanos6", "mpi", "tampi"])), draw(st.sampled_from(["1.0.0", "2.0.0", "1.1.0"]))])
     for i in range(draw(st.integers(0, 3))):
         ops.append(["cpu", 10 * t + i, 100 * t + i])
+    if draw(st.integers(0, 2)) == 0:
+        # the rank is recorded in the metadata of the thread that sets it (the same pair for the
+        # whole process, as MPI would give it)
+        ops.append(["rank", 3, 8])
     if draw(st.booleans()):
         ops.append(["mtype", t, draw(st.integers(0, 1)), "title of %d" % t])
         ops.append(["mlabel", t, 1 + t, "label %d" % t])
@@ -72,7 +76,15 @@ def thread_ops(draw, t):
 @st.composite
 def programs(draw):
     nth = draw(st.integers(2, 8))
-    return {"threads": [draw(thread_ops(t)) for t in range(nth)], "tmpdir": draw(st.booleans())}
+    threads = [draw(thread_ops(t)) for t in range(nth)]
+    # "late": the first thread finishes completely before the others are released together
+    # (a barrier after its thread_free, which is the first op of everybody else)
+    late = nth >= 3 and draw(st.integers(0, 2)) == 0
+    if late:
+        threads[0] = [o for o in threads[0] if o[0] != "spin"] + [["barrier"]]
+        for t in range(1, nth):
+            threads[t] = [["barrier"]] + [o for o in threads[t] if o[0] != "spin"]
+    return {"threads": threads, "tmpdir": draw(st.booleans()), "late": late}
 
 
 def to_script(case):
@@ -122,6 +134,8 @@ def expected_meta(ops):
         elif op[0] == "attr":
             val = {"str": "s%d" % op[3], "num": float(op[3]), "bool": bool(op[3] % 2), "json": {"a": op[3]}}[op[1]]
             attrs[op[2]] = val
+        elif op[0] == "rank":
+            attrs["ovni.rank"], attrs["ovni.nranks"] = op[1], op[2]
     return attrs, req, cpus, marks
 
 
@@ -170,6 +184,9 @@ def run(case, ctx):
                 raise Violation("thread %d loom_cpus %s != %s" % (t, o.get("loom_cpus"), cpus))
             if (o.get("mark") or {}) != marks:
                 raise Violation("thread %d marks %s != %s" % (t, o.get("mark"), marks))
+            for k in ("rank", "nranks"):
+                if k in o and "ovni." + k not in attrs:
+                    raise Violation("thread %d metadata has ovni.%s = %r, which that thread never set" % (t, k, o[k]))
             gv = meta.get("verif", {})
             for k, v in attrs.items():
                 if dotget(meta, k) != v:
@@ -180,7 +197,7 @@ def run(case, ctx):
         iv = sorted(rr.intervals.values())
         overlap = any(iv[i][1] > iv[i + 1][0] for i in range(len(iv) - 1)) if len(iv) > 1 else False
         return {"nt": overlap, "cls": ["threads:%d" % len(case["threads"]), "overlap" if overlap else "no-overlap",
-                                       "tmpdir" if case["tmpdir"] else "direct"],
+                                       "tmpdir" if case["tmpdir"] else "direct"] + (["late-starters"] if case.get("late") else []),
                 "sample": {"nthreads": len(case["threads"]), "ops_per_thread": [len(x) for x in case["threads"]], "first": lines[:12]}}
     finally:
         ctx.rmdir(d)
